@@ -228,6 +228,7 @@ func init() {
 			}
 			return c
 		},
+		"vYield": func(fr *frame, fn *ssa.Function, args []value) value { return nil },
 		"vTier": func(fr *frame, fn *ssa.Function, args []value) value {
 			if fr.in.cfg.Tier == "thorough" {
 				return fr.in.ts.BV(64, 1)
